@@ -27,7 +27,8 @@ CASES = [
                      new="            self._capture_exception(user_exception, sys.exc_info(),\n                                    code, filename)\n            self._stop_mocking(context)")]),
     dict(name='stop_patches-breaks-after-first', kind='mutant', rule='R3', key='_stop_patches:stops-all',
          edits=[dict(file=SB, old="        for a_patch in patches:\n            a_patch.stop()", new="        for a_patch in patches:\n            a_patch.stop()\n            break")]),
-    dict(name='stop_mocking-conditional-pop', kind='mutant', rule='R3', key='_stop_mocking:shape',
+    # tolerating an empty stdout stack changes nothing the property speaks about (an earlier shape rule flagged it)
+    dict(name='twin-stop_mocking-tolerates-empty-stack', kind='twin',
          edits=[dict(file=SB, old="        current_stdout = self._current_stdout.pop()\n        self.append_output(current_stdout.getvalue(), context)",
                      new="        if not self._current_stdout:\n            return\n        current_stdout = self._current_stdout.pop()\n        self.append_output(current_stdout.getvalue(), context)")]),
     dict(name='new-helper-calls-stop_patches', kind='mutant', rule='R3', key='who-may-call:_stop_patches@Sandbox.clear',
